@@ -116,6 +116,12 @@ type FuncDef struct {
 // Val is the JSON form of a cty value placed in the environment.
 // T: num str bool null(dynamic) nnull(number-typed null) snull(string null) lnull (null list of string)
 // tuple object list map
+//
+// Collection and special values:
+//
+//	list / set / map   elements in Elems (Keys for maps); when empty, Ty gives the element type
+//	nullof             cty.NullVal(Ty)      (Ty dyn = the untyped null)
+//	unknownof          cty.UnknownVal(Ty)   (Ty dyn = cty.DynamicVal)
 type Val struct {
 	T     string   `json:"t"`
 	N     string   `json:"n,omitempty"`
@@ -123,6 +129,104 @@ type Val struct {
 	B     bool     `json:"b,omitempty"`
 	Elems []Val    `json:"elems,omitempty"`
 	Keys  []string `json:"keys,omitempty"`
+	Ty    *TyDesc  `json:"ty,omitempty"`
+}
+
+// TyDesc is the JSON form of a cty type: num str bool dyn list set map tuple object.
+type TyDesc struct {
+	K     string   `json:"k"`
+	Elem  *TyDesc  `json:"elem,omitempty"`  // list set map
+	Elems []TyDesc `json:"elems,omitempty"` // tuple; object (with Keys)
+	Keys  []string `json:"keys,omitempty"`
+}
+
+func (t *TyDesc) Cty() (cty.Type, error) {
+	if t == nil {
+		return cty.DynamicPseudoType, nil
+	}
+	switch t.K {
+	case "num":
+		return cty.Number, nil
+	case "str":
+		return cty.String, nil
+	case "bool":
+		return cty.Bool, nil
+	case "dyn":
+		return cty.DynamicPseudoType, nil
+	case "list", "set", "map":
+		e, err := t.Elem.Cty()
+		if err != nil {
+			return cty.NilType, err
+		}
+		switch t.K {
+		case "list":
+			return cty.List(e), nil
+		case "set":
+			return cty.Set(e), nil
+		}
+		return cty.Map(e), nil
+	case "tuple":
+		ts := make([]cty.Type, len(t.Elems))
+		for i := range t.Elems {
+			e, err := t.Elems[i].Cty()
+			if err != nil {
+				return cty.NilType, err
+			}
+			ts[i] = e
+		}
+		return cty.Tuple(ts), nil
+	case "object":
+		if len(t.Keys) != len(t.Elems) {
+			return cty.NilType, fmt.Errorf("object type keys/elems mismatch")
+		}
+		m := map[string]cty.Type{}
+		for i := range t.Elems {
+			e, err := t.Elems[i].Cty()
+			if err != nil {
+				return cty.NilType, err
+			}
+			m[t.Keys[i]] = e
+		}
+		return cty.Object(m), nil
+	}
+	return cty.NilType, fmt.Errorf("bad type kind %q", t.K)
+}
+
+// Class names the value for the evidence labels (var-type:<class>).
+func (v Val) Class() string {
+	switch v.T {
+	case "nullof":
+		if v.Ty == nil {
+			return "null-of-dyn"
+		}
+		return "null-of-" + v.Ty.K
+	case "unknownof":
+		if v.Ty == nil {
+			return "unknown-of-dyn"
+		}
+		return "unknown-of-" + v.Ty.K
+	case "null":
+		return "null-of-dyn"
+	case "nnull":
+		return "null-of-num"
+	case "snull":
+		return "null-of-str"
+	case "lnull":
+		return "null-of-list"
+	case "list", "set", "map":
+		c := v.T
+		if len(v.Elems) == 0 {
+			return "empty-" + c
+		}
+		switch v.Elems[0].T {
+		case "object":
+			return c + "-of-object"
+		case "list", "map", "set", "tuple":
+			return c + "-nested"
+		}
+		return c
+	}
+	return v.T
 }
 
 type Var struct {
@@ -185,6 +289,40 @@ func (v Val) Cty() (cty.Value, error) {
 		return cty.NullVal(cty.String), nil
 	case "lnull":
 		return cty.NullVal(cty.List(cty.String)), nil
+	case "nullof", "unknownof":
+		t, err := v.Ty.Cty()
+		if err != nil {
+			return cty.NilVal, err
+		}
+		if v.T == "nullof" {
+			return cty.NullVal(t), nil
+		}
+		return cty.UnknownVal(t), nil
+	case "set":
+		if len(v.Elems) == 0 {
+			t, err := v.Ty.Cty()
+			if err != nil {
+				return cty.NilVal, err
+			}
+			if v.Ty == nil {
+				t = cty.String
+			}
+			return cty.SetValEmpty(t), nil
+		}
+		vs := make([]cty.Value, len(v.Elems))
+		for i, e := range v.Elems {
+			c, err := e.Cty()
+			if err != nil {
+				return cty.NilVal, err
+			}
+			vs[i] = c
+		}
+		for _, c := range vs[1:] {
+			if !c.Type().Equals(vs[0].Type()) {
+				return cty.NilVal, fmt.Errorf("set with mixed element types")
+			}
+		}
+		return cty.SetVal(vs), nil
 	case "tuple":
 		vs := make([]cty.Value, len(v.Elems))
 		for i, e := range v.Elems {
@@ -211,6 +349,13 @@ func (v Val) Cty() (cty.Value, error) {
 			return cty.ObjectVal(m), nil
 		}
 		if len(m) == 0 {
+			if v.Ty != nil {
+				t, err := v.Ty.Cty()
+				if err != nil {
+					return cty.NilVal, err
+				}
+				return cty.MapValEmpty(t), nil
+			}
 			return cty.MapValEmpty(cty.String), nil
 		}
 		if !sameTypes(m) {
@@ -219,6 +364,13 @@ func (v Val) Cty() (cty.Value, error) {
 		return cty.MapVal(m), nil
 	case "list":
 		if len(v.Elems) == 0 {
+			if v.Ty != nil {
+				t, err := v.Ty.Cty()
+				if err != nil {
+					return cty.NilVal, err
+				}
+				return cty.ListValEmpty(t), nil
+			}
 			return cty.ListValEmpty(cty.String), nil
 		}
 		vs := make([]cty.Value, len(v.Elems))
